@@ -165,7 +165,7 @@ package standard
 //@ // ---- C20: the cache of winning bids stays within a window of recent slots ----
 //@ // the slot a cache key stands for (keys are slots printed in decimal; strconv.ParseUint reads them back)
 //@ spec func keySlot(key string) int
-//@ axiom forall x phase0.Slot {sprintf("%d", x)} :: x <= 9223372036854775807 ==> keySlot(sprintf("%d", x)) == x
+//@ axiom forall x phase0.Slot {sprintf("%d", x)} :: 0 <= x && x <= 18446744073709551615 ==> keySlot(sprintf("%d", x)) == x
 //@ spec func isDecimal(key string) bool
 //@ axiom forall x phase0.Slot {sprintf("%d", x)} :: isDecimal(sprintf("%d", x))
 //@ extern strconv.ParseUint
@@ -174,10 +174,11 @@ package standard
 //@
 //@ // caching a bid leaves only the bids of the last 64 slots (and the one just cached) in the cache, whatever it held before
 //@ func (*Service).cacheBid
-//@   requires s != nil && nolocks() && s.builderBidsCache != nil && slot <= 9223372036854775807
+//@   // (called with the auction lock held; the slot may come from a beacon node's request and is not bounded)
+//@   requires s != nil && unheld(s.builderBidsCacheMu) && s.builderBidsCache != nil
 //@   loop 1
-//@     invariant in(s.builderBidsCache, sprintf("%d", slot))
+//@     invariant slot <= 18446744073709551551 ==> in(s.builderBidsCache, sprintf("%d", slot))
 //@     invariant forall k string :: visited(k) && in(s.builderBidsCache, k) ==> keySlot(k) + 64 >= slot
 //@     invariant forall k string {in(s.builderBidsCache, k)} :: in(s.builderBidsCache, k) ==> k == sprintf("%d", slot) || in(old(s.builderBidsCache), k)
 //@   ensures forall k string {in(s.builderBidsCache, k)} :: in(s.builderBidsCache, k) ==> keySlot(k) + 64 >= slot
-//@   ensures in(s.builderBidsCache, sprintf("%d", slot))
+//@   ensures slot <= 18446744073709551551 ==> in(s.builderBidsCache, sprintf("%d", slot))
